@@ -39,7 +39,9 @@ Next ==
             /\ diverged' = FALSE /\ height' = 0 /\ lastHash' = ""
             /\ viol' = viol
        [] e.ev = "Pair" ->
-            LET bad == IF e.aout # e.bout THEN {What(cur.prop, e.kind, "out")}
+            \* the RESULTS of CheckTx / Query calls that are part of the base history are not constrained (the mempool
+            \* view legitimately depends on earlier mempool traffic); their effect on the consensus state is
+            LET bad == IF e.aout # e.bout /\ e.kind \notin {"check", "query"} THEN {What(cur.prop, e.kind, "out")}
                        ELSE IF e.astate # e.bstate THEN {What(cur.prop, e.kind, "state")} ELSE {}
             IN /\ viol' = IF bad # {} /\ ~diverged
                             THEN Append(viol, [line |-> l, k |-> cur.k, desc |-> cur.desc, i |-> e.i, what |-> bad])
